@@ -345,7 +345,16 @@ def run(ctx, skip_includes: bool = False) -> None:
         args = [ast.unparse(x) for x in c.args] + [f"{k.arg}={ast.unparse(k.value)}" for k in c.keywords]
         rep.check("C10.R6", args[:2] == wait_event.params[:2], wait_event, c, "wait_event subscribes with the caller's signals and filter", f"wait_event subscribes with ({', '.join(args)})")
         rets = [n for n in walk_own(wait_event.node) if isinstance(n, ast.Return) and n.value is not None]
-        ok = bool(rets) and all(isinstance(r.value, ast.Await) and isinstance(r.value.value, ast.Call) and call_name(r.value.value) in ("__anext__", "anext") for r in rets)
+        def _first_item(v) -> bool:
+            # `await stream.__anext__()` directly, or a local that holds nothing else
+            if isinstance(v, ast.Await) and isinstance(v.value, ast.Call) and call_name(v.value) in ("__anext__", "anext"):
+                return True
+            if isinstance(v, ast.Name):
+                srcs = [x.value for x in walk_own(wait_event.node) if isinstance(x, ast.Assign) and any(isinstance(t, ast.Name) and t.id == v.id for t in x.targets)]
+                return bool(srcs) and all(_first_item(s_) for s_ in srcs if not isinstance(s_, ast.Name)) and not any(isinstance(s_, ast.Name) for s_ in srcs)
+            return False
+
+        ok = bool(rets) and all(_first_item(r.value) for r in rets)
         rep.check("C10.R6", ok, wait_event, rets[0] if rets else wait_event.node, "wait_event returns the first event of the filtered stream", "wait_event does not return the first item of the stream")
     for m in ("wait_event", "stream_events"):
         meth = sa.Signal.methods.get(m)
